@@ -4,6 +4,7 @@ import (
 	"fmt"
 	"go/types"
 	"path/filepath"
+	"regexp"
 	"strconv"
 	"strings"
 
@@ -345,6 +346,80 @@ func (ex *Exec) model(g *G, fr *Frame, fn *ssa.Function, name string, args []Val
 			}
 		}
 		return true, out
+	// ---- regexp / Replacer / time: executed natively on concrete strings (trusted) ----
+	case "regexp.MustCompile", "regexp.Compile":
+		pat := ex.cstr(args[0], name)
+		if _, err := regexp.Compile(pat); err != nil {
+			if name == "regexp.MustCompile" {
+				ex.goPanic("regexp: Compile(" + pat + "): " + err.Error())
+			}
+			return true, TupleV{&PtrV{}, ex.newError(ex.concStr(err.Error()), nil)}
+		}
+		c := ex.newCell(types.Typ[types.String], "regexp")
+		c.V = ex.concStr(pat)
+		if name == "regexp.Compile" {
+			return true, TupleV{&PtrV{Cell: c}, &IfaceV{}}
+		}
+		return true, &PtrV{Cell: c}
+	case "regexp.QuoteMeta":
+		return true, ex.concStr(regexp.QuoteMeta(ex.cstr(args[0], name)))
+	case "(*regexp.Regexp).MatchString":
+		re := regexp.MustCompile(ex.cstr(args[0].(*PtrV).Cell.V, name))
+		return true, ts.Bool(re.MatchString(ex.cstr(args[1], name)))
+	case "(*regexp.Regexp).ReplaceAllString":
+		re := regexp.MustCompile(ex.cstr(args[0].(*PtrV).Cell.V, name))
+		return true, ex.concStr(re.ReplaceAllString(ex.cstr(args[1], name), ex.cstr(args[2], name)))
+	case "(*regexp.Regexp).ReplaceAllStringFunc":
+		re := regexp.MustCompile(ex.cstr(args[0].(*PtrV).Cell.V, name))
+		src := ex.cstr(args[1], name)
+		f := args[2].(*FuncV)
+		idxs := re.FindAllStringIndex(src, -1)
+		var out strings.Builder
+		pos, i := 0, 0
+		var next func()
+		next = func() {
+			if i == len(idxs) {
+				out.WriteString(src[pos:])
+				if result != nil && fr != nil {
+					fr.locals[result] = ex.concStr(out.String())
+				}
+				return
+			}
+			m := idxs[i]
+			out.WriteString(src[pos:m[0]])
+			pos = m[1]
+			i++
+			nf := ex.pushFrame(g, f.Fn, []Value{ex.concStr(src[m[0]:m[1]])}, f.Binds, nil)
+			nf.onRet = func(v Value) {
+				out.WriteString(ex.cstr(v, "regexp replacement"))
+				next()
+			}
+		}
+		next()
+		return true, noResult
+	case "strings.NewReplacer":
+		sl := args[0].(*SliceV)
+		var parts []string
+		if sl.Cell != nil {
+			for k := 0; k < int(sl.Len.Val); k++ {
+				parts = append(parts, ex.cstr(ex.cellLoad(sl.Cell.Kids[int(sl.Off.Val)+k]), name))
+			}
+		}
+		c := ex.newCell(types.Typ[types.String], "replacer")
+		c.V = ex.concStr(strings.Join(parts, "\x00"))
+		return true, &PtrV{Cell: c}
+	case "(*strings.Replacer).Replace":
+		parts := strings.Split(ex.cstr(args[0].(*PtrV).Cell.V, name), "\x00")
+		return true, ex.concStr(strings.NewReplacer(parts...).Replace(ex.cstr(args[1], name)))
+	case "time.Now", "(time.Time).UTC":
+		// a fixed instant: 2026-10-01 (the date placeholders of DiffMatch are not exercised)
+		return true, ex.zero(fn.Signature.Results().At(0).Type())
+	case "(time.Time).Year":
+		return true, ts.BV(2026, 64)
+	case "(time.Time).Month":
+		return true, ts.BV(10, 64)
+	case "(time.Time).Day":
+		return true, ts.BV(1, 64)
 	// ---- filepath ----
 	case "path/filepath.Clean":
 		return true, ex.concStr(filepath.Clean(ex.cstr(args[0], name)))
